@@ -2,7 +2,7 @@
    state in their result type: "never modify state" is a typing fact of the model (tied to the code by
    the unqueried-node comparison of the harness). *)
 From stdpp Require Import gmap.
-Require Import Model.Base Model.State Model.Staking Model.Slashing Model.Poa proofs.L1More.
+Require Import Model.Base Model.State Model.Staking Model.Slashing Model.Poa Model.App proofs.L1More proofs.InvHistory proofs.InvComet.
 
 Theorem C18_power_query_existing : forall c val v,
   0 <= val -> vals (stk c) !! val = Some v -> query_power c val = Some (default 0 (last_pow (stk c) !! val)).
@@ -19,3 +19,21 @@ Proof. reflexivity. Qed.
 
 Theorem C18_authority_query : query_authority = admin_id.
 Proof. reflexivity. Qed.
+
+(* agreement with CometBFT: in every reachable, non-halted world the power query of an existing validator returns
+   what CometBFT's next set holds for its consensus key (0 exactly when the key is absent from the set) *)
+Theorem C18_power_query_is_comet_power : forall g bs val v,
+  wf_genesis g ->
+  let w := run_world (init_world g) bs in
+  w_halted w = None -> 0 <= val -> vals (stk (w_chain w)) !! val = Some v ->
+  query_power (w_chain w) val = Some (default 0 (c_next (w_comet w) !! v_cons v)).
+Proof.
+  intros g bs val v Hg w Hh Hval Hv. rewrite (query_power_known _ _ v Hval Hv). f_equal.
+  pose proof (reachable_comet_rel g bs Hg Hh) as Hrel. fold w in Hrel.
+  destruct (last_pow (stk (w_chain w)) !! val) as [p|] eqn:El.
+  - assert (Hk : c_next (w_comet w) !! v_cons v = Some p) by (apply Hrel; exists val, v; auto). rewrite Hk. reflexivity.
+  - destruct (c_next (w_comet w) !! v_cons v) as [q|] eqn:Ek; [|reflexivity]. exfalso.
+    apply Hrel in Ek as (id & v' & Hv' & Hc & Hl).
+    destruct (run_world_WI bs (init_world g) (init_world_WI g Hg)) as [[HS _] _]. fold w in HS.
+    assert (id = val) by (eapply (InvPres.si_cons _ HS); eauto). subst id. congruence.
+Qed.
